@@ -1303,6 +1303,18 @@ impl LpgStore {
         self.property_indexes.read().contains_key(&key)
     }
 
+    /// Returns the number of indexes the store maintains: property indexes plus
+    /// (with the `vector-index` feature) vector indexes.
+    #[must_use]
+    pub fn index_count(&self) -> usize {
+        let property_indexes = self.property_indexes.read().len();
+        #[cfg(feature = "vector-index")]
+        let vector_indexes = self.vector_indexes.read().len();
+        #[cfg(not(feature = "vector-index"))]
+        let vector_indexes = 0;
+        property_indexes + vector_indexes
+    }
+
     /// Stores a vector index for a label+property pair.
     #[cfg(feature = "vector-index")]
     pub fn add_vector_index(&self, label: &str, property: &str, index: Arc<HnswIndex>) {
